@@ -292,6 +292,106 @@ def freeMsg (ms : MsgSt) : Prog Unit :=
   | some h => do let _ ← call (.close h); pure ()
   | none => pure ()
 
+/-- `Model.evalT` with the limits as a parameter: the composite nodes and the three asking conditions, every other node
+is `evalL L`.  Every limit of an asking condition is checked before its question is asked. -/
+def evalTL (L : Limits) (env : Env) (root : Msg) : Expr → (part : Nat) → Msg → St → Ask (Tri × St)
+  | .block _ e, part, m, st =>
+    (evalTL L env root e part m st).bind fun
+      | (.error, st1) => .ret (.error, st1)
+      | (ev, st1) =>
+        if (matchesFind st1.ml .brk).isSome then
+          .ret (.nomatch, { st1 with ml := (matchesRemove st1.ml .brk).1 })
+        else if (matchesFind st1.ml .pass).isSome then
+          let (ml2, n) := matchesRemove st1.ml .pass
+          .ret (if n == 0 then .nomatch else .match, { st1 with ml := ml2 })
+        else .ret (ev, st1)
+  | .and _ l r, part, m, st =>
+    (evalTL L env root l part m st).bind fun
+      | (.match, st1) => evalTL L env root r part m st1
+      | other => .ret other
+  | .or _ l r, part, m, st =>
+    (evalTL L env root l part m st).bind fun
+      | (.nomatch, st1) => evalTL L env root r part m st1
+      | other => .ret other
+  | .neg _ e, part, m, st =>
+    let n := st.ml.length
+    (evalTL L env root e part m st).bind fun
+      | (.error, st1) => .ret (.error, st1)
+      | (.nomatch, st1) => .ret (.match, st1)
+      | (.match, st1) => .ret (.nomatch, { st1 with ml := st1.ml.take n })
+  | .mtch lno c rhs, part, m, st =>
+    let (ml, failed) := matchesAppendL L env st.ml { ty := .mtch, lno := lno, part := part }
+    if failed then .ret (.error, { st with ml := ml })
+    else
+      (evalTL L env root c part m { st with ml := ml }).bind fun
+        | (.match, st1) => evalTL L env root rhs part m st1
+        | other => .ret other
+  | .attachment _ e, part, m, st =>
+    match getAttachments m with
+    | none => .ret (.error, st)
+    | some parts =>
+      let rec loop (ps : List Msg) (i : Nat) (st : St) : Ask (Tri × St) :=
+        match ps with
+        | [] => .ret (.nomatch, st)
+        | p :: rest =>
+          (evalTL L env root e (if part == 0 then i + 1 else part) p st).bind fun
+            | (.nomatch, st1) => loop rest (i + 1) st1
+            | other => .ret other
+      loop parts 0 st
+  | .attBlock _ blk, part, m, st =>
+    match getAttachments m with
+    | none => .ret (.error, st)
+    | some parts =>
+      let rec loopB (ps : List Msg) (i : Nat) (ev : Tri) (st : St) : Ask (Tri × St) :=
+        match ps with
+        | [] => .ret (ev, st)
+        | p :: rest =>
+          (evalTL L env root blk (if part == 0 then i + 1 else part) p st).bind fun
+            | (.error, st1) => .ret (.error, st1)
+            | (.match, st1) => loopB rest (i + 1) .match st1
+            | (.nomatch, st1) => loopB rest (i + 1) ev st1
+      loopB parts 0 .nomatch st
+  | .date lno .header cmp age, part, m, st => .ret (evalL L env root (.date lno .header cmp age) part m st)
+  | .date lno field cmp age, part, _, st =>
+    (ask (.fileTime env.path field)).bind fun a =>
+      match ansFileTime env.timeFormat field a with
+      | none => .ret (.error, st)
+      | some (tim, date) =>
+        if !dateMatches cmp age env.now tim then .ret (.nomatch, st)
+        else .ret (exprRegexecL L env .date lno part { src := [46, 42] } (ofString "Date") date st)
+  | .stat lno path, part, _, st =>
+    let mh : Match := { ty := .stat, lno := lno, part := part, strings := [path] }
+    let (ml, failed) := matchesAppendL L env st.ml mh
+    let st' : St := { st with ml := ml.dropLast }
+    if failed then .ret (.error, st')
+    else
+      match strlcpyL L.pathMax path with
+      | none => .ret (.error, st')
+      | some p =>
+        match interpolate ml.dropLast none p with
+        | none => .ret (.error, st')
+        | some ip =>
+          match strlcpyL L.pathMax ip with
+          | none => .ret (.error, st')
+          | some ip => (ask (.isDir ip)).bind fun a => .ret (if ansIsDir a then .match else .nomatch, st')
+  | .command lno argv, part, _, st =>
+    let mh : Match := { ty := .command, lno := lno, part := part, strings := argv }
+    let (ml, failed) := matchesAppendL L env st.ml mh
+    let st' : St := { st with ml := ml.dropLast }
+    if failed then .ret (.error, st')
+    else
+      match argv.mapM (interpolate ml.dropLast none) with
+      | none => .ret (.error, st')
+      | some av =>
+        (ask (.command av)).bind fun a =>
+          let rc := ansStatus a
+          .ret (if rc == 0 then .match else if rc < 0 then .error else .nomatch, st')
+  | e, part, m, st => .ret (evalL L env root e part m st)
+
+/-- `Model.evalP` with the limits as a parameter. -/
+def evalPL (L : Limits) (env : Env) (e : Expr) (m : Msg) (fl : MFlags) : Prog (Tri × St) :=
+  (evalTL L env m e 0 m { ml := [], flags := fl }).toProg
+
 /-- One message: parse, evaluate, interpolate, inspect / execute, free. -/
 def processMessageL (L : Limits) (env : PEnv) (orc : EvalOracles) (expr : Expr) (md : Maildir) (name : Bytes) (st : MainSt) :
     Prog (MainSt × Maildir) :=
@@ -308,8 +408,9 @@ def processMessageL (L : Limits) (env : PEnv) (orc : EvalOracles) (expr : Expr) 
         let eenv : Env := {
           rx := orc.rx, command := fun _ => -1, isDir := fun _ => false, now := env.now,
           strptime := orc.strptime, zoneName := orc.zoneName, fileTime := fun _ => none,
-          dryrun := env.dryrun, path := ms.path }
-        match evalL L eenv ms.msg expr 0 ms.msg { ml := [], flags := ms.flags } with
+          timeFormat := orc.timeFormat, dryrun := env.dryrun, path := ms.path }
+        let ev ← evalPL L eenv expr ms.msg ms.flags
+        match ev with
         | (.error, _) => do freeMsg ms; pure ({ st with error := true }, md)
         | (.nomatch, _) => do freeMsg ms; pure (st, md)
         | (.match, est) =>
@@ -333,7 +434,7 @@ def nextSubdirL (L : Limits) (md : Maildir) : Prog (Maildir × Bool) :=
 
 /-- `maildir_read` + `maildir_next`: the walk over `new` then `cur` (or the spool). -/
 def walkL (L : Limits) (env : PEnv) (orc : EvalOracles) (expr : Expr) : Nat → Maildir → MainSt → Prog (MainSt × Maildir)
-  | 0, md, st => pure (st, md)
+  | 0, md, st => pure ({ st with fuelOut := true }, md)
   | fuel + 1, md, st =>
     match md.dirH with
     | none => pure (st, md)
@@ -402,22 +503,22 @@ def pathsL (L : Limits) (env : PEnv) (orc : EvalOracles) (input : Bytes) (b : Co
     else if isStdinPath p then do
       let (md, failed, spooled) ← maildirStdinL L env input
       if failed then
-        closeStdin md
-        pathsL L env orc input b more { st with error := true }
+        let fo ← closeStdin (stdinFuel env) md
+        pathsL L env orc input b more (orFuel { st with error := true } fo)
       else
         let st1 := match spooled with
           | some n => { st with files := st.files.put md.path n input }
           | none => st
-        let (st2, md2) ← walkL L env orc b.expr 64 md st1
-        closeStdin md2
-        pathsL L env orc input b more st2
+        let (st2, md2) ← walkL L env orc b.expr (stdinFuel env) md st1
+        let fo ← closeStdin (stdinFuel env) md2
+        pathsL L env orc input b more (orFuel st2 fo)
     else do
       let o ← openMaildirL L p
       match o with
       | none => pathsL L env orc input b more { st with error := true }
       | some md =>
         let n := (st.files.filter fun e => e.1 == md.path || e.1 == (md.root ++ [47] ++ subdirName .cur)).length
-        let (st2, md2) ← walkL L env orc b.expr (2 * n + 8) md st
+        let (st2, md2) ← walkL L env orc b.expr (2 * n + 8 + env.extraFuel) md st
         maildirClose md2
         pathsL L env orc input b more st2
 
